@@ -16,4 +16,48 @@ package highlight
 //@ func SimpleFragmenter.Fragment
 //@   nopanic
 //@   infer
+//@   requires s.fragmentSize >= 0
 //@   requires forall i int :: 0 <= i && i < len(ot) ==> (ot[i] != nil && 0 <= ot[i].Start && ot[i].Start <= ot[i].End && ot[i].End <= len(orig))
+//@   ensures forall k int :: 0 <= k && k < len(result) ==> (result[k] != nil && 0 <= result[k].Start && result[k].Start <= len(orig) && 0 <= result[k].End && result[k].End <= len(orig))
+//@   loop 1
+//@     invariant forall k int :: 0 <= k && k < len(rv) ==> (rv[k] != nil && 0 <= rv[k].Start && rv[k].Start <= len(orig) && 0 <= rv[k].End && rv[k].End <= len(orig))
+
+//@ func TermLocations.within
+//@   nopanic
+//@   infer
+//@   pure
+//@   ensures forall k int :: 0 <= k && k < len(result) ==> (result[k] != nil && 0 <= result[k].Start && result[k].Start <= result[k].End && result[k].End <= n)
+//@   loop 1
+//@     invariant rangeindex < len(t)
+//@     invariant forall k int :: 0 <= k && k < len(rv) ==> (rv[k] != nil && 0 <= rv[k].Start && rv[k].Start <= rv[k].End && rv[k].End <= n)
+
+// Every fragmenter: usable locations in, fragments with both ends inside the text out.
+//@ func Fragmenter.Fragment(recv, orig, ot) (frags)
+//@   interface
+//@   requires forall i int :: 0 <= i && i < len(ot) ==> (ot[i] != nil && 0 <= ot[i].Start && ot[i].Start <= ot[i].End && ot[i].End <= len(orig))
+//@   ensures forall k int :: 0 <= k && k < len(frags) ==> (frags[k] != nil && 0 <= frags[k].Start && frags[k].Start <= len(orig) && 0 <= frags[k].End && frags[k].End <= len(orig))
+
+//@ func TermLocations.MergeOverlapping
+//@   nopanic
+//@   infer
+
+//@ func HTMLFragmentFormatter.Format
+//@   nopanic
+//@   infer
+//@   loop 1
+//@     invariant f.Start <= curr && curr <= f.End
+//@   requires f != nil && 0 <= f.Start && f.Start <= f.End && f.End <= len(f.Orig)
+//@   requires forall i int :: 0 <= i && i < len(orderedTermLocations) ==> (orderedTermLocations[i] == nil || (0 <= orderedTermLocations[i].Start && orderedTermLocations[i].Start <= orderedTermLocations[i].End))
+
+//@ func ANSIFragmentFormatter.Format
+//@   nopanic
+//@   infer
+//@   loop 1
+//@     invariant f.Start <= curr && curr <= f.End
+//@   requires f != nil && 0 <= f.Start && f.Start <= f.End && f.End <= len(f.Orig)
+//@   requires forall i int :: 0 <= i && i < len(orderedTermLocations) ==> (orderedTermLocations[i] == nil || (0 <= orderedTermLocations[i].Start && orderedTermLocations[i].Start <= orderedTermLocations[i].End))
+
+// The highlighter hands only usable locations to the fragmenter (whatever the caller passed in).
+//@ func SimpleHighlighter.BestFragments
+//@   at call Fragment: assert forall i int :: 0 <= i && i < len(termLocationsSameArrayPosition) ==> (termLocationsSameArrayPosition[i] != nil &&
+//@      0 <= termLocationsSameArrayPosition[i].Start && termLocationsSameArrayPosition[i].Start <= termLocationsSameArrayPosition[i].End && termLocationsSameArrayPosition[i].End <= len(orig))
